@@ -19,8 +19,9 @@ RULE = ("hyp layout builder: residues (1..300 quick / 600 thorough) cut into lin
         "parseSeqFile(path) == concatenated residues; corrupted => exception; SequenceParameters(sequenceFile=path) and SequencePermutants "
         "hold exactly those residues and answer a 12-analysis panel like SequenceParameters(residues). Non-trivial: >=2 sequence lines and at "
         "least one of {header, numbering, spacing, '*'}, or any corruption; distinct by file content.")
-ASSUMPTIONS = ["unspecified and therefore not asserted: undecodable / non-ASCII bytes, a first header after sequence lines, tabs or other control "
-               "characters at the edge of a line, files without any residue",
+ASSUMPTIONS = ["unspecified and therefore not asserted: undecodable bytes, non-ASCII decimal digits and non-ASCII whitespace, a first header after "
+               "sequence lines, tabs or other control characters at the edge of a line, files without any residue; other non-ASCII characters "
+               "(letters, symbols, superscript or circled 'digits') in a sequence line are foreign characters and must be rejected",
                "files are written as ASCII/UTF-8 text and read by the library with its default open()"]
 TECHNIQUE = "Hypothesis grammar-based generation of file layouts and single-point corruptions (round-trip oracle: build file from residues, parse, compare) + atheris coverage-guided fuzzing of raw bytes against a reference classifier in the thorough tier"
 LEVEL_TEXT = "Exploration of file layouts and their single corruptions by construction; coverage-guided raw-byte fuzzing with a reference parser in the thorough tier."
@@ -52,7 +53,15 @@ def classify_file(data):
     try:
         text = data.decode("ascii")
     except UnicodeDecodeError:
-        return ("unspecified", "non-ascii")
+        # well-formed UTF-8 with non-ASCII characters: letters, symbols and non-decimal "digits" (superscripts, circled numbers) in a
+        # sequence line are "any other character"; decimal digits of other scripts and non-ASCII whitespace are left unspecified
+        try:
+            text = data.decode("utf-8")
+        except UnicodeDecodeError:
+            return ("unspecified", "undecodable")
+        for ch in text:
+            if ord(ch) > 127 and (ch.isdecimal() or ch.isspace() or ch in "\x85\u2028\u2029" or not ch.isprintable()):
+                return ("unspecified", "non-ascii-digit-or-space")
     text = text.replace("\r\n", "\n").replace("\r", "\n")
     header = False
     seen_seq = False
@@ -83,7 +92,7 @@ def classify_file(data):
         for ch in core_line:
             if ch in ref.AA or ch == "*":
                 out.append(ch)
-            elif ch == " " or ch in "0123456789":
+            elif ch == " " or (ch in "0123456789"):
                 continue
             else:
                 verdict = verdict or ("reject", "foreign-char")
@@ -112,7 +121,7 @@ def check_bytes(ctx, data, case, expect=None):
         raise util.env.HarnessError("generator and reference classifier disagree on %r: %r vs %r" % (data, expect, verdict))
     if expect is not None and expect[0] == "ok" and verdict[1] != expect[1]:
         raise util.env.HarnessError("reference classifier parses %r to %r, generator built it from %r" % (data, verdict[1], expect[1]))
-    text = data.decode("ascii", errors="replace")
+    text = data.decode("utf-8", errors="replace")
     nlines = sum(1 for l in text.replace("\r", "\n").split("\n") if l.strip() and not l.strip().startswith(">"))
     feats = [f for f, c in (("header", ">" in text), ("digits", any(ch.isdigit() for ch in text)), ("spacing", " " in text), ("star", "*" in text)) if c]
     if verdict[0] == "unspecified":
@@ -137,6 +146,16 @@ def check_bytes(ctx, data, case, expect=None):
         pa, pb = panel(o, full), panel(util.env.SP()(want), full)
         for k in pa:
             ctx.check(same(pa[k], pb[k]), "panel:" + k, "%s differs between the file-built and the string-built object: %r vs %r" % (k, pa[k], pb[k]), case)
+    if case.get("alias", False) and any(r in want for r in ref.STY):
+        # state set on one file-built object must not show on another object built from the same file
+        sites = [i + 1 for i, r in enumerate(want) if r in ref.STY][:3]
+        o.set_phosphosites(sites)
+        o.set_HTMLColorResiduePalette({a: "navy" for a in ref.AA})
+        o2 = util.env.SP()(sequenceFile=path)
+        fresh = util.env.SP()(want)
+        ctx.check(list(o2.get_phosphosites()) == [], "file-objects-aliased", "a second object built from the same file starts with phosphosites %r" % (o2.get_phosphosites(),), case)
+        ctx.check(o2.get_HTMLColorString() == fresh.get_HTMLColorString(), "file-objects-aliased", "a second object built from the same file renders with another object's palette", case)
+        ctx.check(o2.get_phosphosequence() == want, "file-objects-aliased", "a second object built from the same file has phosphosequence %r" % (o2.get_phosphosequence(),), case)
     if case.get("permutants", False):
         from localcider.sequencePermutants import SequencePermutants
         p = SequencePermutants(sequenceFile=path)
@@ -240,7 +259,7 @@ def hyp_case(draw, max_len):
             lines[li] = line[:p] + draw(st.sampled_from(FOREIGN)) + line[p:]
             expect = ["reject", "foreign-char"]
     data = render(lines, L["eol"], L["trailing"])
-    return {"hex": data.hex(), "expect": expect, "text": data.decode("ascii"), "permutants": draw(st.integers(0, 7)) == 0}
+    return {"hex": data.hex(), "expect": expect, "text": data.decode("ascii"), "permutants": draw(st.integers(0, 7)) == 0, "alias": draw(st.integers(0, 3)) == 0}
 
 
 def enum_cases(tier, seed):
@@ -256,6 +275,14 @@ def enum_cases(tier, seed):
     base = [">sp|P12345| test protein 1", "MKVLA GSEDK 10", "RRPYT*"]
     yield {"hex": render(base, "\n", True).hex(), "expect": ["ok", "MKVLAGSEDKRRPYT"]}
     yield {"hex": render(base, "\r\n", False).hex(), "expect": ["ok", "MKVLAGSEDKRRPYT"]}
+    for ch in "²³¹①⑳½éÉßµΩ中":
+        for base in ([">h", "MKVLA GSEDK", "RRPYT"], ["MKVLA GSEDK", "RRPYT"]):
+            for li in (len(base) - 2, len(base) - 1):
+                line = base[li]
+                for p in (1, 3, len(line) - 1):
+                    lines = list(base)
+                    lines[li] = line[:p] + ch + line[p:]
+                    yield {"hex": ("\n".join(lines) + "\n").encode("utf-8").hex(), "expect": ["reject", "foreign-char"]}
     for a in ref.AA:
         yield {"hex": a.encode().hex(), "expect": ["ok", a]}
         yield {"hex": (">h\n" + a + "*\n").encode().hex(), "expect": ["ok", a]}
